@@ -471,7 +471,8 @@ static void register_extern(CG *cg, const char *name, const char *module_name,
 
     /* Add to codegen extern table */
     ExternFn *ef = &cg->externs[cg->extern_count];
-    ef->name = (char *)name;
+    /* callers pass string literals, AST-owned names and (is_digit & co.) a stack buffer: keep a private copy */
+    ef->name = strdup(name);
     ef->module_name = (char *)module_name;
     ef->import_idx = imp_idx;
     ef->param_count = param_count;
@@ -3071,6 +3072,7 @@ CodegenResult codegen_compile(ASTNode *program, Environment *env,
     }
 
     free(cg.code);
+    for (uint32_t i = 0; i < cg.extern_count; i++) free(cg.externs[i].name);
 
     if (cg.had_error) {
         result.ok = false;
